@@ -8,6 +8,10 @@ From Toasty Require Import Model.Quadtree Model.Reducer Model.WalkPar
      Proofs.WalkParDefs Proofs.WalkParAux Proofs.WalkParPrep Proofs.WalkParInv.
 Import ListNotations.
 
+Notation nobad := (fun _ : pos => false).
+Notation run := (wrun nobad).
+Notation step := (wstep nobad).
+
 (* ---- the initial state when there is nothing to do -------------------------------- *)
 
 Definition s_empty (ap : pos) (par pcap : nat) (R : list (pos * N)) : wstate :=
@@ -81,17 +85,17 @@ Section Walk.
     Let Hchild := proj2 (proj2 (ops_closure P Hwf)).
 
     Notation I0 := (init0 (spec_ops P) (apex P) (depth P) par pcap R).
-    Notation INV := (Inv (spec_ops P) (apex P) (depth P) par pcap).
+    Notation INV := (Inv nobad (spec_ops P) (apex P) (depth P) par pcap).
 
     Lemma ne_inv l : INV (run I0 l).
     Proof.
-      apply (inv_reachable (spec_ops P) (apex P) (depth P) par pcap R Hpar Hpcap ops_nodup Hap
+      apply (inv_reachable nobad (spec_ops P) (apex P) (depth P) par pcap R Hpar Hpcap ops_nodup Hap
                ops_level ops_above Hparent Hchild HR).
     Qed.
 
     Lemma ne_safe l : safe (spec_ops P) (run I0 l).
     Proof.
-      apply (inv_safe (spec_ops P) (apex P) (depth P) par pcap R Hpar Hpcap
+      apply (inv_safe nobad (spec_ops P) (apex P) (depth P) par pcap R Hpar Hpcap
                ops_level ops_above Hparent Hchild HR). apply ne_inv.
     Qed.
 
@@ -102,27 +106,30 @@ Section Walk.
       length (wks (run I0 l)) = par /\
       (forall w x, nth_error (wks (run I0 l)) w = Some x -> fst x = KExited 0).
     Proof.
-      apply (inv_terminal (spec_ops P) (apex P) (depth P) par pcap R Hpar Hpcap ops_nodup
-               ops_level ops_above Hparent Hchild HR). apply ne_inv.
+      intros Hr.
+      destruct (inv_terminal nobad (spec_ops P) (apex P) (depth P) par pcap R Hpar Hpcap ops_nodup
+               ops_level ops_above Hparent Hchild HR _ (ne_inv l) Hr) as (A & B & C & _ & D).
+      repeat split; auto. intros w x Hx. apply (D (fun _ => eq_refl) w x Hx).
     Qed.
 
     Lemma ne_not_raised l : d_pc (run I0 l) <> DRaised.
     Proof.
-      intros E. pose proof (i_wks _ _ _ _ _ _ (ne_inv l)) as Hw. unfold wks_ok in Hw.
+      intros E.
+      pose proof (i_wks _ _ _ _ _ _ _ (ne_inv l)) as Hw. unfold wks_ok in Hw.
       rewrite E in Hw. exact Hw.
     Qed.
 
-    Lemma ne_progress l : d_pc (run I0 l) <> DReturned -> can_progress (run I0 l).
+    Lemma ne_progress l : d_pc (run I0 l) <> DReturned -> can_progress nobad (run I0 l).
     Proof.
-      apply (no_deadlock (spec_ops P) (apex P) (depth P) par pcap R Hpar Hpcap Hap
-               ops_level ops_above Hparent Hchild HR). apply ne_inv.
+      apply (no_deadlock nobad (spec_ops P) (apex P) (depth P) par pcap R Hpar Hpcap Hap
+               ops_level ops_above Hparent Hchild HR _ (fun _ => eq_refl)). apply ne_inv.
     Qed.
 
     Lemma ne_measure l a :
       wenabled (run I0 l) a = true -> wpolling (run I0 l) a = false ->
       measure (spec_ops P) par (step (run I0 l) a) < measure (spec_ops P) par (run I0 l).
     Proof.
-      apply (measure_decreases (spec_ops P) (apex P) (depth P) par pcap R Hpar Hpcap Hap
+      apply (measure_decreases nobad (spec_ops P) (apex P) (depth P) par pcap R Hpar Hpcap Hap
                ops_level ops_above Hparent Hchild HR). apply ne_inv.
     Qed.
   End NonEmpty.
@@ -208,7 +215,7 @@ Section Walk.
   Qed.
 
   Theorem walk_par_no_deadlock l :
-    let s := run s0 l in d_pc s <> DReturned -> can_progress s.
+    let s := run s0 l in d_pc s <> DReturned -> can_progress nobad s.
   Proof.
     intros s Hr. subst s. destruct s0_cases as [(EO & R & ->)|(Hne & R & HR & ->)].
     - rewrite empty_run in Hr. exfalso. apply Hr. reflexivity.
